@@ -34,7 +34,7 @@ na = [{"property_id": p, "reason": na_reasons.get(p, default_na)} for p in props
 
 
 def serves(kind):
-    return [p for p, e in sorted(ent.items()) if e.get("engine", "pure") == kind]
+    return [p for p, e in sorted(ent.items()) if kind in e.get("engine", "pure").split(" + ")]
 
 
 man = {
